@@ -44,7 +44,7 @@ Restart == Quiescent /\ locked = {} /\ Silent([a |-> "Restart"])
 RejectWide == \E k \in TKeys : ideal[k].rc = 0 /\ k \notin locked /\ VisibleRoot(k).rc = 0 /\
                  \E n \in {256, 300} : Silent([a |-> "Reject", why |-> "wide", k |-> k, n |-> n])
 RejectOther == \E k \in TKeys : VisibleRoot(k).rc = 0 /\ ideal[k].rc = 0 /\ k \notin locked /\
-                 \E why \in {"deref_missing", "plain_op", "ins_then_bad", "ins_then_wide"} :
+                 \E why \in {"deref_missing", "plain_op", "ins_then_bad", "ins_then_wide", "ins_then_deref", "ins_then_deref_absent"} :
                      Silent([a |-> "Reject", why |-> why, k |-> k, n |-> 0])
 
 \* keeps a behaviour going when only probabilistic steps are left
